@@ -11,26 +11,6 @@ import (
 // accounting, receiveWindow, the window frame builder/reader) from arbitrary states: window size,
 // counters and message sizes are symbolic over the full int32 range up to 2^30.
 
-const zzMaxW = 1 << 30
-
-func zzC07state(w int32) (*channelState, *zzConn, *zzVirtQueue) {
-	conn := &zzConn{}
-	q := &zzVirtQueue{}
-	q.wait = make(chan struct{}, 1)
-	s := &channelState{
-		id:             bin.Bin128{},
-		ctx:            &context{CancelContext: zzNewCtx(), conn: conn},
-		conn:           conn,
-		client:         true,
-		initWindow:     w,
-		sendWindowWait: make(chan struct{}, 1),
-		recvQueue:      q,
-	}
-	s.opened.Store(true)
-	s.sender = newChanSender(s, conn)
-	return s, conn, q
-}
-
 // ZZ_C07_Admission: one call of decrementSendWindow from an arbitrary sender state.
 //   returns OK        => the free window was at least min(size, W/2) and is debited by exactly size
 //   would have blocked => the free window was below both size and W/2, and is unchanged
